@@ -26,3 +26,12 @@ def register(check):
           floors={"quick": {"outcome_checked": 500, "header_reads_checked": 300, "trailer_reads_checked": 500, "request_md_checked": 200, "gate_releases": 2000, "yield:client.finish.betweenPublish": 200, "nonutf8_probes": 6},
                   "thorough": {"outcome_checked": 15000, "header_reads_checked": 9000, "trailer_reads_checked": 15000, "gate_releases": 60000}},
           assumptions=COMMON_ASSUMPTIONS)
+    check("C18",
+          level="exploration",
+          rule="inputs are the enumerated grpc-timeout header values of the tier (every unit x 1..N, powers of ten +-1 up to 8 digits, per-unit int64 overflow boundary +-1, "
+               "9..20 digits, signs, spaces, non-ASCII digits, unit variants, repeated headers) plus PRNG-sampled digit strings; each value is sent on its own unary RPC inside a synctest bubble and the "
+               "handler's ctx.Deadline()-now compared with an independent implementation of the wire spec; non-trivial = batch with at least one value judged; distinct = distinct batches (each value is distinct)",
+          nontrivial="timeout_values",
+          floors={"quick": {"timeout_values": 1300, "timeout_valid": 800, "timeout_malformed": 200, "timeout_saturating": 3},
+                  "thorough": {"timeout_values": 60000, "timeout_valid": 30000, "timeout_malformed": 5000, "timeout_saturating": 10}},
+          assumptions=COMMON_ASSUMPTIONS + ["all-zero timeout values are excluded (specification says positive, grpc-go accepts 0; the property does not decide)"])
